@@ -74,7 +74,9 @@ def run_lines(lines, salt, via):
             for ln in lines:
                 outs.append(SIR.replace_matching_item(regexes(), ln, lookup, salt))
         else:
-            fa = AF.FileAnonymizer(anon_pwd=True, anon_ip=False, salt=salt)
+            # "io": secrets only; "io-undo": secrets together with undoing IP anonymization (an option combination)
+            fa = AF.FileAnonymizer(anon_pwd=True, anon_ip=False, salt=salt or "u", undo_ip_anon=True) if via == "io-undo" \
+                else AF.FileAnonymizer(anon_pwd=True, anon_ip=False, salt=salt)
             for ln in lines:
                 buf = io.StringIO()
                 fa.anonymize_io(io.StringIO(ln + "\n"), buf)
@@ -152,7 +154,8 @@ def forms_workload(ck, pid, tier, salts):
     traces, meta = [], []
     for ai, al in enumerate(als):
         salt = salts[ai % len(salts)]
-        via = "rmi" if ai % 4 else "io"
+        # (io-undo also rewrites addresses, so it is used where only the paired outputs are compared)
+        via = ["io", "rmi", "rmi", "io-undo" if pid == "C07" else "io", "rmi", "rmi", "rmi", "rmi"][ai % 8]
         rf = rng(pid, "fill", ai)
         variants = []
         for v in range(2 if pid == "C07" else 1):
@@ -377,24 +380,33 @@ def long_runs(ck, pid, tier):
 
 
 def same_form_twice(ck, pid):
-    """Two different secrets in two occurrences of the same syntax on one line."""
+    """Two different secrets in two occurrences of the same syntax on one line (different kept text before each)."""
     traces, meta = [], []
     r = rng(pid, "twice")
-    for form in ["password {} password {}", "key {} key {}", "snmp-server community {} snmp-server community {}"]:
-        a, b = G.gen_secret(r, "text"), G.gen_secret(r, "text")
+    forms = ["password {} password {}", "key {} key {}", "snmp-server community {} snmp-server community {}",
+             "password 0 {} ; password 7 {}", "enable password level 3 {} , enable password level 5 {}", "key hexadecimal {} key 7 {}",
+             '{{"a": "password {}", "b": "password 5 {}"}}']
+    for fi, form in enumerate(forms):
+        a = G.gen_secret(r, "text")
+        b = G.gen_secret(r, ["text", "type7", "hex", "md5"][fi % 4])
         ln = form.format(a, b)
-        outs, _ = run_lines([ln], "TESTSALT", "rmi")
+        outs, _ = run_lines([ln], ["TESTSALT", "", "Qx"][fi % 3], "rmi" if fi % 2 else "io")
         ev = [{"ev": "run", "clauses": CLAUSES[pid]}]
         if isinstance(outs, str):
             ev.append({"ev": "exc", "what": outs})
         else:
             w = ln.split()
-            for v in (a, b):
-                conc = {"words": w, "lead": "", "secrets": [{"value": v, "cls": "text", "slen": 0, "index": w.index(v), "pre": "", "post": "", "head": "", "tail": "", "n": 1}]}
-                for e in G.project(conc, outs[0], "replace"):
-                    e["ev"] = "sec"
-                    e["key"] = v
-                    ev.append(e)
+            secs = []
+            for n, v in enumerate((a, b)):
+                idx = [i for i, t in enumerate(w) if v in t][0]
+                tok = w[idx]
+                pre, post = tok[: tok.index(v)], tok[tok.index(v) + len(v):]
+                secs.append({"value": v, "cls": G.classify(v)[0], "slen": G.classify(v)[1], "index": idx, "pre": pre, "post": post, "head": "", "tail": "", "n": n + 1})
+            conc = {"words": w, "lead": ln[: len(ln) - len(ln.lstrip())], "secrets": secs}
+            for sd, e in zip(secs, G.project(conc, outs[0], "replace")):
+                e["ev"] = "sec"
+                e["key"] = G.secret_key(sd["value"])
+                ev.append(e)
         traces.append(ev)
         meta.append({"key": "same-syntax-twice-on-one-line", "lines": [ln], "outs": outs})
     return traces, meta
@@ -463,7 +475,7 @@ def run(pid, tier):
                       "secrets are generated disjoint between format classes, avoid reserved words and quote/terminator characters",
                       "independent decoders ($9$ from Juniper.tla, type 7, shape patterns for $1$/$6$) are trusted; word and AS stages are off"]
     ck.model("Secrets", "Secrets.cfg", "R: lookup stays injective and only grows", workers=4)
-    salts = ["TESTSALT", "", "#first-char-outside-alphabet", "Qsalt"]
+    salts = ["TESTSALT", "", "#first-char-outside-alphabet", "Qsalt", "s_alt", "B#1", "Q_+=x", "7 days", "z\u00e9"]
     traces, meta = forms_workload(ck, pid, tier, salts)
     judge(ck, pid, traces, meta, "forms")
     if pid == "C07":
@@ -477,9 +489,10 @@ def run(pid, tier):
         ck.sample({"history": meta[len(meta) // 2]})
         traces, meta = long_runs(ck, pid, tier)
         judge(ck, pid, traces, meta, "long-run")
-    if pid == "C08":
+    if pid in ("C08", "C09"):
         traces, meta = same_form_twice(ck, pid)
         judge(ck, pid, traces, meta, "twice")
+    if pid == "C08":
         traces, meta = files_workload(ck, pid)
         judge(ck, pid, traces, meta, "files")
     ck.rule = ("cases = abstract lines enumerated by TLC from the form table (distinct by form, alternatives, class, wrap, lead), "
